@@ -348,6 +348,7 @@ def main(argv=None):
     ap.add_argument('--replay')
     args = ap.parse_args(argv)
     seed = int(os.environ.get('VERIF_SEED', '0') or 0)
+    os.environ['VERIF_TIER'] = args.tier          # contracts size their bounded dimensions by tier
     os.chdir(HERE)
     if args.replay:
         from pyvc import replay
